@@ -84,20 +84,36 @@ func (k *c17) summarize(fn *ssa.Function, recvIdx int) *writeSummary {
 	sum := &writeSummary{may: map[string]bool{}, partial: map[string]token.Pos{}, ok: true}
 	first := true
 	errIdx := errResultIndex(fn)
-	complete := enumPathsRaw(fn, 2, 60000, func(p CPath) {
+	// rootedOn: the access path of v, continued through the parameters of spliced helpers, is
+	// rooted at the receiver
+	rootedOn := func(p CPath, ctx *FCtx, v ssa.Value) (string, bool) {
+		a := p.APIn(ctx, v)
+		if a.Root != ssa.Value(recv) {
+			return "", false
+		}
+		for _, s := range a.Sel {
+			if strings.HasPrefix(s, "[") {
+				return "", false
+			}
+		}
+		return a.SelString(), true
+	}
+	fl := flatOf(fn)
+	complete := enumPaths(fn, 2, 60000, func(p CPath) {
 		ret, isRet := p.Last().(*ssa.Return)
-		if !isRet {
+		if !isRet || ret.Parent() != fn {
 			return
 		}
 		if errIdx >= 0 {
 			ev := p.Resolve(ret.Results[errIdx])
 			if !isNilConst(ev) {
-				// delegation: `return m.helper(data, ...)` succeeds exactly when the helper does
+				// delegation: `return m.Helper(data, ...)` to a callee that is not spliced succeeds
+				// exactly when the helper does
 				deleg := false
-				if call, ok := ev.(*ssa.Call); ok {
+				if call, ok := ev.(*ssa.Call); ok && !fl.Spliced(call) {
 					if cf := call.Call.StaticCallee(); cf != nil && k.c.InModule(cf) && cf.Blocks != nil {
 						for _, a := range call.Call.Args {
-							if _, ok := rootedAt(a, recv); ok {
+							if _, ok := rootedOn(p, p.ctxOfValue(call), a); ok {
 								deleg = true
 							}
 						}
@@ -115,17 +131,17 @@ func (k *c17) summarize(fn *ssa.Function, recvIdx int) *writeSummary {
 				w[l] = true
 			}
 		}
-		for _, in := range p.Instrs() {
-			switch x := in.(type) {
+		for _, oc := range p.Occs() {
+			switch x := oc.In.(type) {
 			case *ssa.Store:
-				if sel, ok := rootedAt(x.Addr, recv); ok && sel != "" {
+				if sel, ok := rootedOn(p, oc.Ctx, x.Addr); ok && sel != "" {
 					add(sel, x.Val.Type())
 				}
 			case *ssa.Call:
 				if bi, ok := x.Call.Value.(*ssa.Builtin); ok {
 					if bi.Name() == "copy" {
 						if sl, ok := x.Call.Args[0].(*ssa.Slice); ok && sl.Low == nil && sl.High == nil {
-							if sel, ok := rootedAt(sl.X, recv); ok && sel != "" {
+							if sel, ok := rootedOn(p, oc.Ctx, sl.X); ok && sel != "" {
 								ct := k.lf.copyTotal[x]
 								if ct != nil && ct.Partial == 0 && ct.Total > 0 {
 									w[sel] = true
@@ -138,6 +154,9 @@ func (k *c17) summarize(fn *ssa.Function, recvIdx int) *writeSummary {
 					}
 					continue
 				}
+				if fl.Spliced(x) {
+					continue // its stores are on the path
+				}
 				callee := x.Call.StaticCallee()
 				if callee == nil || !k.c.InModule(callee) || callee.Blocks == nil {
 					continue
@@ -146,7 +165,7 @@ func (k *c17) summarize(fn *ssa.Function, recvIdx int) *writeSummary {
 					if _, isPtr := a.Type().Underlying().(*types.Pointer); !isPtr {
 						continue
 					}
-					sel, ok := rootedAt(a, recv)
+					sel, ok := rootedOn(p, oc.Ctx, a)
 					if !ok {
 						continue
 					}
